@@ -26,6 +26,7 @@ VERIF_DIR = os.path.dirname(os.path.dirname(os.path.dirname(os.path.abspath(__fi
 REPLAY_DIR = os.environ.get("BTCSIM_REPLAY_DIR") or os.path.join(VERIF_DIR, "replays")
 EVIDENCE_DIR = os.environ.get("BTCSIM_EVIDENCE_DIR") or os.path.join(VERIF_DIR, "evidence")
 RUN_WALL_S = 120  # per-run wall watchdog: a trip is a harness error
+TRACE_SET_CAP = 400_000
 
 
 @dataclass
@@ -486,8 +487,12 @@ def run_check(
                 a.probes.update(cr.probes)
                 a.checks.update(cr.checks)
                 a.known_hits.update(cr.known_hits)
-                a.trace_hashes |= cr.trace_hashes
-                a.nontrivial_hashes |= cr.nontrivial_hashes
+                # distinct-trace sets are capped (a very fast world makes millions of runs a minute): past the
+                # cap the measure stops growing, i.e. it is reported conservatively
+                if len(a.trace_hashes) < TRACE_SET_CAP:
+                    a.trace_hashes |= cr.trace_hashes
+                if len(a.nontrivial_hashes) < TRACE_SET_CAP:
+                    a.nontrivial_hashes |= cr.nontrivial_hashes
                 a.states |= cr.states
                 a.events += cr.events
                 a.draws += cr.draws
